@@ -571,13 +571,14 @@ def ruleHalfAfterHH(ts: datetime, _: RegexMatch, t: Time) -> Optional[Time]:
 def ruleTODPOD(ts: datetime, tod: Time, pod: Time) -> Optional[Time]:
     # time of day may only be an hour as in "3 in the afternoon"; this
     # is only relevant for time <= 12
-    # (hour 0 is midnight whatever the part of day: "0 uhr nachts")
-    if 0 < tod.hour < 12 and (
+    # (hour 0 at night or in the evening is midnight: "0 uhr nachts"; in the
+    # afternoon it is the hour after noon: "halb eins nachmittags" is 12:30)
+    if tod.hour < 12 and (
         "afternoon" in pod.POD
         or "evening" in pod.POD
         or "night" in pod.POD
         or "last" in pod.POD
-    ):
+    ) and not (tod.hour == 0 and "afternoon" not in pod.POD):
         h = tod.hour + 12
     elif tod.hour > 12 and (
         "forenoon" in pod.POD or "morning" in pod.POD or "first" in pod.POD
@@ -783,12 +784,12 @@ def rulePODInterval(ts: datetime, p: Time, i: Interval) -> Optional[Interval]:
     def _adjust_h(t: Time) -> Optional[int]:
         if t.hour is None:
             return None
-        if 0 < t.hour < 12 and (
+        if t.hour < 12 and (
             "afternoon" in p.POD
             or "evening" in p.POD
             or "night" in p.POD
             or "last" in p.POD
-        ):
+        ) and not (t.hour == 0 and "afternoon" not in p.POD):
             return t.hour + 12
         else:
             return t.hour
